@@ -508,3 +508,10 @@ package main
 // below, whose only variable parts are an attribute value free of quotes and angle brackets.
 //@ import htmltemplate "html/template"
 //@ convinv html/template.HTML (s string) :: strMatchesGoRe(s, "^<INPUT TYPE=\"hidden\" id=\"login_destination_input\" NAME=\"login_destination\" VALUE=\"[^\"<>]*\">$") || strMatchesGoRe(s, "^<img src=\"data:image/png;base64,[A-Za-z0-9+/=_-]*\" alt=\"beastie.png\" scale=\"0\" />$")  #C18.inert-markup @C18
+// the other html/template types that bypass escaping: no non-constant value may be converted to them at all
+//@ convinv html/template.JS (s string) :: false        #C18.no-raw-js @C18
+//@ convinv html/template.JSStr (s string) :: false     #C18.no-raw-jsstr @C18
+//@ convinv html/template.HTMLAttr (s string) :: false  #C18.no-raw-attr @C18
+//@ convinv html/template.CSS (s string) :: false       #C18.no-raw-css @C18
+//@ convinv html/template.URL (s string) :: false       #C18.no-raw-url @C18
+//@ convinv html/template.Srcset (s string) :: false    #C18.no-raw-srcset @C18
